@@ -789,6 +789,142 @@ func doKey(c *hlib.Ctx, r *hlib.Rand, it c13Item) {
 	c.Do(fmt.Sprintf("key %s %s %s", it.tok(), qt, table(hashB64, sh)), true)
 }
 
+// c13Fill makes a string of exactly n bytes out of letters and digits (no separator characters).
+func c13Fill(r *hlib.Rand, n int) string {
+	const alpha = "abcdefghijklmnopqrstuvwxyz0123456789_ABCDEFGHIJKLMNOPQRSTUVWXYZ"
+	b := make([]byte, n)
+	for i := range b {
+		b[i] = alpha[r.Intn(len(alpha))]
+	}
+	return string(b)
+}
+
+// c13Flip changes one byte of s (the last or the first) to another letter.
+func c13Flip(s string, last bool) string {
+	if s == "" {
+		return "x"
+	}
+	b := []byte(s)
+	i := 0
+	if last {
+		i = len(b) - 1
+	}
+	if b[i] == 'a' {
+		b[i] = 'b'
+	} else {
+		b[i] = 'a'
+	}
+	return string(b)
+}
+
+// c13GenLengths: the length dimension.  For every key kind, strings whose individual and combined
+// lengths sit at and around powers of two (buffer sizes), in pairs that differ in one byte only — the
+// last, or the first — or by the last byte missing.  Every pair goes through the key functions (tie +
+// oracle: different items, different keys) and end to end through the caches.
+func c13GenLengths(c *hlib.Ctx, blocks []string) {
+	r := c.R
+	marks := []int{31, 32, 63, 64, 127, 128, 129, 255, 256, 1023, 1024}
+	pairP := func(a, b c13Item, shape string) {
+		c.Count("length-pair:postings/" + shape)
+		classifyItem(c, a)
+		classifyItem(c, b)
+		c.Do(fmt.Sprintf("o.ic.flow %s %s;%s", a.tok(), b.tok(), a.tok()), true)
+		out := c.Do(fmt.Sprintf("pair %s %s -", a.tok(), b.tok()), true)
+		c.Count("pair:" + out)
+	}
+	reps := c.N(1, 4)
+	for rep := 0; rep < reps; rep++ {
+		for _, mark := range marks {
+			for _, delta := range []int{-1, 0, 1} {
+				total := mark + delta
+				c.Count(fmt.Sprintf("length:%d", total))
+				blk, comp := c13Block(r, blocks), r.Pick(c13Comps)
+				// ---- postings: total = len(name)+len(value), and = len(name)+1+len(value) (with the ':')
+				for _, withSep := range []bool{false, true} {
+					body := total
+					if withSep {
+						body = total - 1
+					}
+					nl := []int{1, 3, body / 2, body - 1}[r.Intn(4)]
+					if nl < 1 {
+						nl = 1
+					}
+					if nl > body-1 {
+						nl = body - 1
+					}
+					name, value := c13Fill(r, nl), c13Fill(r, body-nl)
+					a := c13Item{kind: 'P', block: blk, name: name, value: value, comp: comp}
+					b := a
+					b.value = c13Flip(value, true)
+					pairP(a, b, "last-byte-of-value")
+					b = a
+					b.value = value[:len(value)-1]
+					if b.value != "" {
+						pairP(a, b, "last-byte-missing")
+					}
+					b = a
+					b.name = c13Flip(name, false)
+					pairP(a, b, "first-byte-of-name")
+					b = a
+					b.name = c13Flip(name, true)
+					pairP(a, b, "last-byte-of-name")
+					if r.Chance(1, 2) {
+						doKey(c, r, a)
+					}
+				}
+				// individual lengths at the mark
+				{
+					name, value := c13Fill(r, total), c13Fill(r, r.Range(1, 5))
+					if r.Bool() {
+						name, value = value, name
+					}
+					a := c13Item{kind: 'P', block: blk, name: name, value: value, comp: comp}
+					b := a
+					b.value = c13Flip(value, true)
+					pairP(a, b, "one-long-string")
+					b = a
+					b.name = c13Flip(name, true)
+					pairP(a, b, "one-long-string")
+				}
+				// ---- matchers: the conversion cache key and the expanded-postings key
+				{
+					nl := []int{1, 3, total / 2}[r.Intn(3)]
+					m1 := c13Matcher{t: r.Intn(4), n: c13Fill(r, nl), v: c13Fill(r, total-nl)}
+					for _, shape := range []string{"last-byte-of-value", "first-byte-of-value", "last-byte-of-name", "last-byte-missing"} {
+						m2 := m1
+						switch shape {
+						case "last-byte-of-value":
+							m2.v = c13Flip(m1.v, true)
+						case "first-byte-of-value":
+							m2.v = c13Flip(m1.v, false)
+						case "last-byte-of-name":
+							m2.n = c13Flip(m1.n, true)
+						default:
+							m2.v = m1.v[:len(m1.v)-1]
+						}
+						c.Count("length-pair:matcher/" + shape)
+						c.Do(fmt.Sprintf("o.mc.flow %s %s;%s", m1.tok(), m2.tok(), m1.tok()), true)
+						out := c.Do(fmt.Sprintf("mpair %d %s %s %d %s %s", m1.t, hlib.HexS(m1.n), hlib.HexS(m1.v), m2.t, hlib.HexS(m2.n), hlib.HexS(m2.v)), true)
+						c.Count("mpair:" + out)
+						// the same two matchers as expanded-postings items (with a second, short matcher)
+						other := c13Matcher{t: 0, n: "job", v: "x"}
+						a := c13Item{kind: 'E', block: blk, ms: []c13Matcher{m1, other}, comp: comp}
+						b := c13Item{kind: 'E', block: blk, ms: []c13Matcher{m2, other}, comp: comp}
+						c.Count("length-pair:expanded/" + shape)
+						classifyItem(c, a)
+						classifyItem(c, b)
+						c.Do(fmt.Sprintf("o.ic.flow %s %s;%s", a.tok(), b.tok(), a.tok()), true)
+						qt := table(strconv.Quote, append(a.quoted(), b.quoted()...))
+						out = c.Do(fmt.Sprintf("pair %s %s %s", a.tok(), b.tok(), qt), true)
+						c.Count("pair:" + out)
+					}
+					c.Do(fmt.Sprintf("mkey %d %s %s", m1.t, hlib.HexS(m1.n), hlib.HexS(m1.v)), true)
+				}
+			}
+		}
+	}
+}
+
 // c13GenConc: concurrent misses of the matchers cache by different matchers that share the value string.
 func c13GenConc(c *hlib.Ctx) {
 	r := c.R
@@ -853,6 +989,7 @@ func genC13(c *hlib.Ctx) {
 		blocks = append(blocks, id.String())
 	}
 	c13GenConc(c)
+	c13GenLengths(c, blocks)
 	rounds := c.N(8000, 60000)
 	for round := 0; round < rounds; round++ {
 		// ---- postings: two ways of cutting one string at a ':' (the collision shape), and random pairs
